@@ -20,6 +20,7 @@ structure St where
   tip     : BlockId := []
   running : Bool := false
   top     : Nat := 0
+  n       : NSrv := {}      -- the wallet's NotificationServer (one TransactionNotifications client registered)
   broken  : Bool := false   -- sticky: mined records of two different blocks at one height (wtxmgr iteration fails)
 
 def St.content (s : St) : Content :=
@@ -75,7 +76,9 @@ def natOf (toks : List String) (k : String) : Option Nat := (kv toks k).bind Str
 /-- Apply an evolution step: notifications only when the wallet is running. -/
 def applyStep (s : St) (st : Step) : St :=
   let tip' := stepTip s.tip st
-  if s.running then { s with w := process s.cfg s.w (ntfnsOf s.content s.tip st), tip := tip' }
+  if s.running then
+    let p := processN s.cfg (s.w, s.n) (ntfnsOf s.content s.tip st)
+    { s with w := p.1, n := p.2, tip := tip' }
   else { s with tip := tip' }
 
 def step (s : St) (line : String) : St × String :=
@@ -165,7 +168,8 @@ def step (s : St) (line : String) : St × String :=
           let n : Option Ntfn := if k == "c" then some (.connected st) else if k == "d" then some (.disconnected st) else none
           match n with
           | some n =>
-            let s' := { s with w := handle s.cfg s.w n }
+            let p := handleN s.cfg (s.w, s.n) n
+            let s' := { s with w := p.1, n := p.2 }
             (s', showState s')
           | none => (s, "bad-op")
         | none => (s, "bad-op")
@@ -177,11 +181,11 @@ def step (s : St) (line : String) : St × String :=
       match natOf rest "recw" with
       | some recw =>
         if s.running then (s, "bad-op") else
-        let (w', ok) := startup s.cfg recw s.batch s.w s.tip
+        let (p', ok) := startupDuringN s.cfg recw s.batch s.w s.tip []
         if ok then
-          let s' := { s with w := w', running := true }
+          let s' := { s with w := p'.1, n := p'.2, running := true }
           (s', showState s')
-        else ({ s with w := w', running := false }, "sync-stuck")
+        else ({ s with w := p'.1, n := {}, running := false }, "sync-stuck")
       | none => (s, "bad-op")
     | "startx" =>
       match natOf rest "id", parseMode (kv rest "mode") with
@@ -189,11 +193,11 @@ def step (s : St) (line : String) : St × String :=
         match s.blocks.get? id with
         | some bi =>
           if s.running || bi.bid.tail != s.tip || bi.bid == [] then (s, "bad-op") else
-          let (w', ok) := startupDuring s.cfg 0 s.batch s.w s.tip (connectNtfns s.content m bi.bid)
+          let (p', ok) := startupDuringN s.cfg 0 s.batch s.w s.tip (connectNtfns s.content m bi.bid)
           if ok then
-            let s' := { s with w := w', running := true, tip := bi.bid }
+            let s' := { s with w := p'.1, n := p'.2, running := true, tip := bi.bid }
             (s', showState s')
-          else ({ s with w := w', running := false, tip := bi.bid }, "sync-stuck")
+          else ({ s with w := p'.1, n := {}, running := false, tip := bi.bid }, "sync-stuck")
         | none => (s, "bad-op")
       | _, _ => (s, "bad-op")
     | "state" => (s, showState s)
@@ -207,11 +211,24 @@ def step (s : St) (line : String) : St × String :=
 /-- Once the store holds records of two blocks at one height (only reachable through the zero-hash quirk or a
     malformed stream) wtxmgr's per-height block records are out of the model's scope: the case is over, both sides
     answer `store-inconsistent` from the op that created the situation on. -/
-def step' (s : St) (line : String) : St × String :=
+def step1 (s : St) (line : String) : St × String :=
   if s.broken && (words line).head? != some "init" then (s, "store-inconsistent") else
   let (s1, r) := step s line
   if s1.inited && s1.running && !s1.broken && inconsistent s1.w then
     ({ s1 with broken := true }, "store-inconsistent")
+  else (s1, r)
+
+def showNBlock (b : NBlock) : String := s!"{b.height}:{showHash b.hash}[{joinWith "+" (b.txs.map toString)}]"
+
+def showTxNtfn (n : TxNtfn) : String :=
+  s!"A={joinWith "/" (n.attached.map showNBlock)},D={joinWith "/" (n.detached.map showHash)},U={joinWith "/" (n.unmined.map toString)}"
+
+/-- Every reply that shows the running wallet also shows the `TransactionNotifications` delivered to the registered
+    client since the previous such reply. -/
+def step' (s : St) (line : String) : St × String :=
+  let (s1, r) := step1 s line
+  if r.startsWith "run " then
+    ({ s1 with n := { s1.n with sent := [] } }, r ++ " ntf=" ++ joinWith "|" (s1.n.sent.map showTxNtfn))
   else (s1, r)
 
 def run (i o : IO.FS.Stream) : IO Unit := loop i o ({} : St) step'
